@@ -83,7 +83,20 @@ def c02_leaves(t):
     if a == b:
         return r == "{{" + str(a) + "}}"
     return r == "{{" + str(a) + "," + str(b) + "}}"
-''', timeout=T, prelude=PRE_LEAF, key="leaf_times_text", note=f"quantifier text for every pair 0 <= min <= max <= {hi}")]
+''', timeout=T, prelude=PRE_LEAF, key="leaf_times_text", note=f"quantifier text for every pair 0 <= min <= max <= {hi}")] + [
+        ch.H(f"c02/times_text_large/{base}", f'''def times_text_large_{base}(a: int, db: int, big_min: bool) -> bool:
+    """
+    pre: 0 <= a <= 6 and 0 <= db <= 8
+    post: _
+    """
+    # large bounds are written out exactly like small ones (no cap, no rounding): windows just below / above {base}
+    b = {base} - 4 + db
+    lo = b - a if big_min else a
+    r = TimesTypeBuilder.get_min_max_regex(TimesType(lo, b))
+    if lo == b:
+        return r == "{{" + str(lo) + "}}" or (lo == 1 and r is None)
+    return r == "{{" + str(lo) + "," + str(b) + "}}"
+''', timeout=T, prelude=PRE_LEAF, key="leaf_times_text", note=f"quantifier text around max = {base}") for base in (1000, 1024, 65536)]
 
 
 PRE_REG = '''
